@@ -73,6 +73,72 @@ def run_jobs(jobs, timeout=3000):
     return res
 
 
+CH_GROUPS = [("dT_iF_oF", True, False, False), ("dT_iT_oF", True, True, False), ("dF_iF_oF", False, False, False), ("dF_iT_oF", False, True, False),
+             ("dT_iF_oT", True, False, True), ("dF_iF_oT", False, False, True)]
+
+
+def config_holder_extension(ck, tier, seed, only=None):
+    """specs/ConfigHolder.tla (beyond the listed property; the mechanism behind 'deriving a world never mutates its inputs'):
+    exhaustive TLC runs of the six realisable class shapes, the named deviation as an expected violation, and TLC-simulated
+    behaviours replayed step by step on real ConfigHolder / LayerConfigHolder / WorldConfigHolder objects."""
+    groups = []
+    nb = 40 if tier == "quick" else 400
+    for name, hd, si, wo in CH_GROUPS:
+        r = run_tlc("ConfigHolder", "ConfigHolder_%s.cfg" % name, workers=8, timeout=600)
+        ck.add_tlc(r, "ConfigHolder (extension) %s: default=%s store_py_info=%s owner=%s" % (name, hd, si, wo))
+        if not r.ok:
+            raise MachineryError("ConfigHolder_%s: %s violated" % (name, r.violated))
+        wd = scratch("chsim")
+        os.makedirs(os.path.join(wd, "sim"))
+        run_tlc("ConfigHolder", "ConfigHolder_%s_sim.cfg" % name, workdir=wd, workers=1, timeout=600, depth=16,
+                simulate="file=%s,num=%d" % (os.path.join(wd, "sim", "b"), nb), seed=seed + 11)
+        behs = []
+        for f in sorted(os.listdir(os.path.join(wd, "sim"))):
+            b = tlaval.parse_sim_file(os.path.join(wd, "sim", f))
+            if b:
+                behs.append([[st["last"], {k: st[k] for k in ("clsdef", "made", "def", "cfg", "old", "repl", "owner")}] for _a, _args, st in b])
+        if not behs:
+            raise MachineryError("no ConfigHolder behaviours from TLC (%s)" % name)
+        groups.append({"name": name, "has_default": hd, "store_info": si, "with_owner": wo, "keys": sorted(behs[0][0][1]["cfg"]["d"]), "behaviours": behs})
+    rn = run_tlc("ConfigHolder", "ConfigHolder_neg_historyfree.cfg", workers=4, timeout=300, expect_violation=True)
+    if rn.ok or rn.violated != "HistoryFree":
+        raise MachineryError("ConfigHolder_neg_historyfree: expected HistoryFree to be violated, got %s" % rn.violated)
+    # TLC's counterexample (the configuration depends on the history of replacements) is replayed too: the code must follow it
+    if rn.trace:
+        groups[0]["behaviours"].append([[st["last"], {k: st[k] for k in ("clsdef", "made", "def", "cfg", "old", "repl", "owner")}] for _a, st in rn.trace])
+
+    def drive(grps, sabotage=False):
+        out = scratch("chjob")
+        jf = os.path.join(out, "job.json")
+        json.dump({"groups": grps, "sabotage": sabotage}, open(jf, "w"))
+        p = core.run_py(["-m", "harness.config_holder_driver", jf], timeout=1200)
+        if p.returncode != 0 or not os.path.exists(jf + ".out.json"):
+            raise MachineryError("config_holder_driver failed: %s" % (p.stderr or "")[-800:])
+        return json.load(open(jf + ".out.json"))
+    res = drive(groups)
+    acts = {}
+    for g in groups:
+        for b in g["behaviours"]:
+            for lab, _ in b:
+                acts[lab[0]] = acts.get(lab[0], 0) + 1
+            ck.case(("config_holder", g["name"], json.dumps([x[0] for x in b])), True)
+    for v in res["results"]:
+        g = groups[v["group"]]
+        what = v["problems"][0][0]
+        ck.violation({"clause": "config_holder_conformance", "what": what, "action": v["label"][0]},
+                     "ConfigHolder (%s, %s holder): after %s the real object and ConfigHolder.tla disagree on %s: %s (history: %s)" % (
+                         g["name"], v["kind"], v["label"], what, v["problems"][0][1][:300], [x[0] for x in v["prefix"]]),
+                     {"kind": "config_holder", "group": {k: g[k] for k in ("name", "has_default", "store_info", "with_owner", "keys")}, "behaviour": g["behaviours"][v["behaviour"]] if v["behaviour"] < len(g["behaviours"]) else None, "problems": v["problems"]})
+    # negative control of the binding: one skipped replace_config must be noticed
+    neg = drive([dict(groups[0], behaviours=[next(b for b in groups[0]["behaviours"] if any(x[0][0] == "Replace" and x[1]["cfg"] != y[1]["cfg"] for x, y in zip(b[1:], b)))])], sabotage=True)
+    if not neg["results"]:
+        raise MachineryError("binding self-test failed: a skipped replace_config went unnoticed")
+    ck.notes["config_holder_extension"] = {"behaviours": sum(len(g["behaviours"]) for g in groups), "steps_replayed": res["steps"], "actions": acts,
+                                           "named_deviation": "HistoryFree violated by TLC (keys of earlier replacements persist under a non-forced update); the counterexample replays on the real class",
+                                           "negative_control": "a skipped replace_config is reported (%s)" % neg["results"][0]["problems"][0][0]}
+    ck.cov["traces_validated_against_impl"] = ck.cov.get("traces_validated_against_impl", 0) + sum(len(g["behaviours"]) for g in groups)
+
+
 def run(tier, seed):
     ck = Check("C16", "model_checking", tier, seed)
     rng = random.Random(seed)
@@ -163,6 +229,7 @@ def run(tier, seed):
     if not nres["configs"][0]:
         raise MachineryError("binding self-test failed: a corrupted configuration produced no failure")
     ck.notes["negative_control_replay"] = "configuration with swapped layer radii -> %s" % nres["configs"][0][0]["clause"]
+    config_holder_extension(ck, tier, seed)
     ck.cov["rule"] = ("cases: TLC-enumerated layer-stack configurations (stratified sample over layer count, geometry forms, world-mass flag, scale) built "
                       "and scaled on the real builder; distinct TLC derivation chains replayed on shipped layered worlds; shipped worlds")
     ck.assumptions += ["BurnMan worlds excluded (BurnMan not installed)", "lengths in units of 1e5 m, densities in units of 1000 kg/m3; rel. 1e-11",
@@ -173,6 +240,14 @@ def run(tier, seed):
 def replay(path):
     d = json.load(open(path))
     r = d["replay"]
+    if r["kind"] == "config_holder":
+        out = scratch("chreplay")
+        jf = os.path.join(out, "job.json")
+        json.dump({"groups": [dict(r["group"], behaviours=[r["behaviour"]])]}, open(jf, "w"))
+        core.run_py(["-m", "harness.config_holder_driver", jf], timeout=600)
+        res = json.load(open(jf + ".out.json"))
+        print(json.dumps(res, indent=1)[:3000])
+        return 1 if res["results"] else 0
     if r["kind"] == "config":
         job = {"configs": [r["state"]], "chains": [], "shipped": []}
     elif r["kind"] == "chain":
